@@ -12,6 +12,9 @@ def run(tier, seed):
         jobs.append({"prog": "exit", "strategy": "pct", "runs": (60, 800), "args": [], "env": env})
     jobs.append({"prog": "exit", "strategy": "random", "runs": (80, 1000), "args": ["--park", "6", "--rate", "3"], "env": None})      # a remote free stalled between its two CAS while the owner exits
     jobs.append({"prog": "exit", "strategy": "pct", "runs": (40, 600), "args": ["--park", "6"], "env": rof})
+    # pinned schedule: a thread stalled inside _mi_arena_segment_mark_abandoned (after the bit is set) while another thread adopts and
+    # frees the segment (debug builds aborted on a racy assertion before /repo 34edd07)
+    jobs.append({"prog": "exit", "strategy": "pct", "runs": (1, 1), "args": [], "env": None, "seed": 1003437, "builds": ["dbg"]})
     jobs.append({"prog": "exit-heap", "strategy": "random", "runs": (30, 400), "args": ["--rate", "3"], "env": None})
     jobs.append({"prog": "exit-heap", "strategy": "random", "runs": (30, 400), "args": ["--rate", "3"], "env": rof})
     jobs.append({"prog": "exit", "strategy": "random", "runs": (60, 800), "args": ["--size", "60000", "65536"], "env": rof})
